@@ -815,6 +815,10 @@ func (res *Response) BuildPassThroughResult(ctx context.Context) {
 		columnsIndex[col] = colNum
 	}
 	for i := range res.request.Sort {
+		if len(res.request.Stats) > 0 {
+			// stats results are not sorted, an additional column would only change the grouping of the backend
+			break
+		}
 		field := res.request.Sort[i]
 		if j, ok := columnsIndex[field.Column]; ok {
 			// sort column does exist in the request columns
